@@ -11,6 +11,9 @@ mod error;
 #[cfg(feature = "async")]
 mod future;
 mod signal;
+#[cfg(feature = "verif")]
+#[doc(hidden)]
+pub mod verif;
 
 pub use error::*;
 #[cfg(feature = "async")]
@@ -23,6 +26,8 @@ use core::{
     mem::{needs_drop, size_of, MaybeUninit},
     time::Duration,
 };
+#[cfg(feature = "verif")]
+use crate::verif::std;
 use std::time::Instant;
 
 use internal::{acquire_internal, try_acquire_internal, ChannelInternal, Internal};
@@ -804,6 +809,8 @@ impl<T> Sender<T> {
             internal.push_send(sig.get_terminator());
             drop(internal);
             if !sig.wait_timeout(deadline) {
+                #[cfg(feature = "verif")]
+                crate::verif::at(crate::verif::SITE_TIMED_EXPIRED);
                 if sig.is_terminated() {
                     // Safety: data failed to move, sender should drop it if it
                     // needs to
@@ -812,6 +819,8 @@ impl<T> Sender<T> {
                     }
                     return Err(SendErrorTimeout::Closed);
                 }
+                #[cfg(feature = "verif")]
+                crate::verif::at(crate::verif::SITE_TIMED_PRECANCEL);
                 {
                     let mut internal = acquire_internal(&self.internal);
                     if internal.cancel_send_signal(&sig) {
@@ -886,10 +895,14 @@ impl<T> Sender<T> {
             internal.push_send(sig.get_terminator());
             drop(internal);
             if !sig.wait_timeout(deadline) {
+                #[cfg(feature = "verif")]
+                crate::verif::at(crate::verif::SITE_TIMED_EXPIRED);
                 if sig.is_terminated() {
                     *data = Some(d);
                     return Err(SendErrorTimeout::Closed);
                 }
+                #[cfg(feature = "verif")]
+                crate::verif::at(crate::verif::SITE_TIMED_PRECANCEL);
                 {
                     let mut internal = acquire_internal(&self.internal);
                     if internal.cancel_send_signal(&sig) {
@@ -1185,9 +1198,13 @@ impl<T> Receiver<T> {
             internal.push_recv(sig.get_terminator());
             drop(internal);
             if !sig.wait_timeout(deadline) {
+                #[cfg(feature = "verif")]
+                crate::verif::at(crate::verif::SITE_TIMED_EXPIRED);
                 if sig.is_terminated() {
                     return Err(ReceiveErrorTimeout::Closed);
                 }
+                #[cfg(feature = "verif")]
+                crate::verif::at(crate::verif::SITE_TIMED_PRECANCEL);
                 {
                     let mut internal = acquire_internal(&self.internal);
                     if internal.cancel_recv_signal(&sig) {
